@@ -6,7 +6,7 @@ transition of those state graphs plus seeded random long histories are replayed 
 real sockets (multicast.UDPPeer on the multicast-capable interface, sonic.PacketConn
 on loopback, raw harness sockets as peers, getsockopt/getsockname next to every
 getter) and the recorded traces are validated by TLC against the monitor."""
-import json, os
+import json, os, time
 import vlib
 
 LEVEL = "model_checking"
@@ -19,13 +19,14 @@ MANIFEST = dict(
     design_ref="5/C12")
 
 MEM = '{"mem", "send"}'
-RD = '{"send", "rd", "sync", "lim", "setbuf"}'
-WR = '{"send", "rd", "wr", "wset", "lim"}'
-PC = '{"send", "rd", "wr", "sync", "lim", "readall"}'
-ALLMC = '{"mem", "send", "rd", "wr", "wset", "lim", "sync", "setbuf"}'
+RD = '{"send", "rd", "sync", "lim", "setbuf", "chain"}'
+WR = '{"send", "rd", "wr", "wset", "lim", "oversize"}'
+PC = '{"send", "rd", "wr", "sync", "lim", "readall", "chain", "oversize"}'
+BURST = '{"burst", "send", "rd", "chain", "lim", "setbuf"}'
+ALLMC = '{"mem", "send", "rd", "wr", "wset", "lim", "sync", "setbuf", "chain", "oversize"}'
 PCBINDS = '{"lo", "localhost", "empty", "port0", "if"}'
 
-BASE = {"Kind": '"mc"', "NR": 1, "Binds": '{"any"}', "NG": 2, "NS": 1, "Acts": MEM, "PreJoin": "FALSE",
+BASE = {"Kind": '"mc"', "NR": 1, "Binds": '{"any"}', "WBinds": '{"any0"}', "NG": 2, "NS": 1, "Acts": MEM, "PreJoin": "FALSE",
         "MaxSteps": 4, "MaxHist": 0}
 
 
@@ -33,18 +34,22 @@ def cfgs(tier):
     q = tier == "quick"
     cover = [
         # name, constants, keep one edge in `every` (1 = all)
-        ("membership-1rcv", dict(NR=1, Binds='{"any", "grp", "if"}', MaxSteps=4 if q else 5), 1),
-        ("membership-2rcv", dict(NR=2, Binds='{"any", "grp"}', MaxSteps=3 if q else 4), 1 if q else 2),
-        ("membership-2rcv-deep", dict(NR=2, Binds='{"any"}', MaxSteps=4 if q else 5), 4 if q else 3),
-        ("reads", dict(NG=1, PreJoin="TRUE", Acts=RD, MaxSteps=6 if q else 8), 1),
+        ("membership-1rcv", dict(NR=1, Binds='{"any", "grp", "if"}', MaxSteps=4 if q else 5), 2 if q else 1),
+        ("membership-2rcv", dict(NR=2, Binds='{"any", "grp"}', MaxSteps=3 if q else 4), 2),
+        ("membership-2rcv-deep", dict(NR=2, Binds='{"any"}', MaxSteps=4 if q else 5), 6 if q else 3),
+        ("constructors", dict(NR=1, Binds='{"empty0", "lo0", "if0", "grp0", "any", "grp", "if"}', WBinds='{"any0", "if0"}',
+                              Acts='{"mem", "send", "wr", "wset"}', MaxSteps=2), 2 if q else 1),
+        ("reads", dict(NG=1, NS=2, PreJoin="TRUE", Acts=RD, MaxSteps=5 if q else 7), 1 if q else 4),
         ("reads-2rcv", dict(NR=2, NG=1, PreJoin="TRUE", Acts=RD, MaxSteps=4 if q else 5), 1 if q else 2),
-        ("writer", dict(NG=1, PreJoin="TRUE", Acts=WR, MaxSteps=4 if q else 5), 2 if q else 3),
-        ("packetconn", dict(Kind='"pc"', Binds=PCBINDS, NS=2 if q else 3, NG=1, Acts=PC, MaxSteps=4 if q else 5), 3 if q else 6),
+        ("burst-pc", dict(Kind='"pc"', Binds='{"lo"}', NS=2, NG=1, Acts=BURST, MaxSteps=3 if q else 4), 2 if q else 4),
+        ("burst-mc", dict(NR=2, NG=1, PreJoin="TRUE", Acts=BURST, MaxSteps=3 if q else 4), 2 if q else 4),
+        ("writer", dict(NG=1, PreJoin="TRUE", WBinds='{"any0", "if0"}', Acts=WR, MaxSteps=4 if q else 5), 6),
+        ("packetconn", dict(Kind='"pc"', Binds=PCBINDS, NS=2 if q else 3, NG=1, Acts=PC, MaxSteps=4 if q else 5), 8),
     ]
     sims = [
-        ("random-mc", dict(NR=2, Binds='{"any", "grp"}', Acts=ALLMC, MaxSteps=16, MaxHist=44), 250 if q else 4000, "big"),
-        ("random-mc-joined", dict(NR=2, Binds='{"any"}', PreJoin="TRUE", Acts=ALLMC, MaxSteps=20, MaxHist=52), 150 if q else 3000, "big"),
-        ("random-pc", dict(Kind='"pc"', Binds=PCBINDS, NS=3, NG=1, Acts=PC, MaxSteps=30, MaxHist=64), 250 if q else 4000, "big"),
+        ("random-mc", dict(NR=2, NS=2, Binds='{"any", "grp"}', WBinds='{"any0", "if0"}', Acts=ALLMC, MaxSteps=16, MaxHist=44), 120 if q else 4000, "big"),
+        ("random-mc-joined", dict(NR=2, Binds='{"any"}', PreJoin="TRUE", Acts=ALLMC, MaxSteps=20, MaxHist=52), 80 if q else 3000, "big"),
+        ("random-pc", dict(Kind='"pc"', Binds=PCBINDS, NS=3, NG=1, Acts=PC, MaxSteps=30, MaxHist=64), 120 if q else 4000, "big"),
     ]
     strict = [] if q else [
         ("membership-exhaustive", dict(NR=2, Binds='{"any", "grp"}', MaxSteps=6)),
@@ -62,11 +67,13 @@ def _consts(over):
 def _validate(ck, sw, name, beh, label, mode, lane, consts):
     trace = os.path.join(ck.work, "trace_%s.ndjson" % name)
     m = "lane=%d" % lane + ("," + mode if mode else "")
+    t0 = time.time()
     summ, _ = vlib.run_replay(["dgram", "-in", beh, "-out", trace, "-seed", str(ck.seed), "-mode", m], timeout=1500)
     if summ is None:
         raise vlib.Inconclusive("replay %s printed no summary" % name)
     bads, _ = vlib.validate_trace(sw, "DatagramMonTrace", "DatagramMonTrace.cfg", trace, timeout=1500,
                                   parallel=ck.par)
+    vlib.log("[c12] %-28s %6d scenarios %8d events  replay+validate %.1fs" % (name, summ["scenarios"], summ["events"], time.time() - t0))
     harness = [b for b in bads if b[2].startswith("C12/harness")]
     if harness:
         raise vlib.Inconclusive("driver protocol error %s in %s" % (harness[0], label))
@@ -80,7 +87,9 @@ def _validate(ck, sw, name, beh, label, mode, lane, consts):
     ck.cov.setdefault("events", 0)
     ck.cov["events"] += summ["events"]
     if summ.get("notes"):
-        ck.cov.setdefault("driver_notes", {}).update(summ["notes"])
+        dn = ck.cov.setdefault("driver_notes", {})
+        for k, v in summ["notes"].items():
+            dn[k] = dn.get(k, 0) + v
     if summ["drift"]:
         ck.cov["impl_drift"].append({"run": label, "steps_differing_from_model": summ["drift"],
                                      "first": summ.get("first_drift")})
@@ -121,6 +130,7 @@ def run(ck):
         if not r.ok:
             raise vlib.Inconclusive("DatagramImpl %s: %s\n%s" % (name, r.violated or r.error, r.tail()))
         ck.add_tlc("DatagramImpl transition cover: " + name, r, consts)
+        vlib.log("[c12] tlc cover %-24s %.1fs" % (name, r.wall))
         for line in r.lines('<<"MODELBAD"'):
             model_findings.add(line.split('"')[3])
         beh = os.path.join(ck.work, "cover_%s.jsonl" % name)
@@ -140,6 +150,7 @@ def run(ck):
         if r.violated or (r.error and "timeout" in r.error):
             raise vlib.Inconclusive("DatagramImpl simulation %s: %s\n%s" % (name, r.violated or r.error, r.tail()))
         ck.add_tlc("DatagramImpl random simulation: " + name, r, consts, exhaustive=False)
+        vlib.log("[c12] tlc simulation %-19s %.1fs" % (name, r.wall))
         beh = os.path.join(ck.work, "sim_%s.jsonl" % name)
         if vlib.edges_to_file(r, beh) == 0:
             raise vlib.Inconclusive("simulation %s produced no histories\n%s" % (name, r.tail()))
@@ -169,7 +180,7 @@ def run(ck):
             ("BUG_StaleBuffer", dict(NG=1, PreJoin="TRUE", Acts=RD, MaxSteps=4), "NotBad"),
             ("BUG_OutboundCopy", dict(NG=1, PreJoin="TRUE", Acts=WR, MaxSteps=2), "GettersOK")]
 
-    with ThreadPoolExecutor(max_workers=4 if ck.tier == "quick" else 5) as ex:
+    with ThreadPoolExecutor(max_workers=6) as ex:
         futs = [ex.submit(do_cover, a) for a in enumerate(cover, 1)]
         futs += [ex.submit(do_sim, a) for a in enumerate(sims, 20)]
         futs += [ex.submit(do_strict, a) for a in strict]
